@@ -1019,6 +1019,9 @@ func c02R9(p *core.Prog, r *core.Report) {
 					if sig, ok := o.Callee().Type().(*types.Signature); ok && sig.Recv() != nil && (core.IsNamed(sig.Recv().Type(), "bytes", "Buffer") || core.IsNamed(sig.Recv().Type(), "strings", "Builder")) {
 						continue
 					}
+					if o.Callee().Name() == "Clone" {
+						continue // a copy of the same bytes
+					}
 					bad = o.Callee().Pkg().Path() + "." + o.Callee().Name()
 				}
 			}
